@@ -47,6 +47,9 @@ class Instrument:
         self.saved = []
         self.asked = {}          # build -> [amount per round]
         self.released = {}       # build -> txo ids handed to release_outputs
+        self.pre_done = set()    # builds whose first reserve_outputs call (the pre-chosen inputs) has completed
+        self.barrier = None      # optional coroutine function awaited before a build asks the ledger for funds
+        self.after_read = None   # optional coroutine function awaited right after a build has read the wallet
 
     async def pause(self):
         b = cur_build.get()
@@ -94,8 +97,21 @@ class Instrument:
                     op_label.reset(tok)
                     await self.pause()
             return f
-        self.patch(ledger, 'get_effective_amount_estimators', labelled('read', ledger.get_effective_amount_estimators))
-        self.patch(ledger, 'reserve_outputs', labelled('reserve', ledger.reserve_outputs))
+        lab_read = labelled('read', ledger.get_effective_amount_estimators)
+
+        async def read(accounts):
+            r = await lab_read(accounts)
+            if self.after_read is not None:
+                await self.after_read()
+            return r
+        self.patch(ledger, 'get_effective_amount_estimators', read)
+        lab_reserve = labelled('reserve', ledger.reserve_outputs)
+
+        async def reserve(txos):
+            r = await lab_reserve(list(txos))
+            self.pre_done.add(cur_build.get())
+            return r
+        self.patch(ledger, 'reserve_outputs', reserve)
         orig_rel = labelled('release', ledger.release_outputs)
 
         async def rel(txos):
@@ -108,6 +124,8 @@ class Instrument:
 
         async def gsu(amount, funding_accounts, *a, **k):
             self.asked.setdefault(cur_build.get(), []).append(amount)
+            if self.barrier is not None:
+                await self.barrier()
             await self.pause()
             return await orig_gsu(amount, funding_accounts, *a, **k)
         self.patch(ledger, 'get_spendable_utxos', gsu)
@@ -171,9 +189,16 @@ async def run_concurrent(world, case):
             await asyncio.sleep(0)
         while d.get('after_sync') is not None and d['after_sync'] not in synced:
             await asyncio.sleep(0.001)
+        while d.get('after_done_of') is not None and 'status' not in results.get(d['after_done_of'], {}):
+            await asyncio.sleep(0.001)
+        while d.get('after_tx_of') is not None and 'tx' not in results.get(d['after_tx_of'], {}) \
+                and 'status' not in results.get(d['after_tx_of'], {}):
+            await asyncio.sleep(0.001)
+        while d.get('after_read_of') is not None and not any(k == 'read' and x == d['after_read_of'] for k, x, _ in events):
+            await asyncio.sleep(0.001)
         pre, pre_desc = c03.make_pre(world, d, made, rid_of)
         outs = c03.make_outputs(d['outs'])
-        res = {'pre_desc': pre_desc, 'outs': outs}
+        res = {'pre_desc': pre_desc, 'outs': outs, 'pre_wallet': [x[0] for x in pre_desc if x[0] < c03.EXTERNAL_BASE]}
         results[b] = res
         signing = bool(d.get('sign'))
         fault = signing and (bool(case.get('locked')) or c03.GHOST in case['funding'])
@@ -225,7 +250,9 @@ async def run_concurrent(world, case):
             tok = op_label.set(('spend', b))
             try:
                 def mark(conn):
-                    for t in tx.inputs[len(pre):]:
+                    for t in tx.inputs:
+                        if t.txo_ref.id not in rid_of:
+                            continue
                         conn.execute("INSERT OR IGNORE INTO txi (txid, txoid, address, position) VALUES (?, ?, ?, ?)",
                                      ('sp%d' % b, t.txo_ref.id, 'x', t.position)).fetchall()
                 await ledger.db.db.run(mark)
@@ -236,6 +263,27 @@ async def run_concurrent(world, case):
             res['status'] = 'finish'        # still in flight when the case ends
 
     ins.install()
+    with_pre = [b for b, d in enumerate(case['builds']) if any(p['kind'] == 'wallet' for p in d.get('pre', []))]
+
+    async def barrier():
+        # callers hand in their pre-chosen wallet outputs before anybody funds (unless the case says otherwise): wait
+        # until each of those builds has reserved them - or is over
+        if not case.get('barrier', False):
+            return
+        for _ in range(20000):
+            if all(p in ins.pre_done or 'status' in results.get(p, {}) or 'tx' in results.get(p, {}) for p in with_pre):
+                return
+            await asyncio.sleep(0)
+    ins.barrier = barrier
+
+    async def after_read():
+        d = case['builds'][cur_build.get()]
+        p = d.get('after_read_wait_for_pre')
+        for _ in range(100):
+            if p is None or p in ins.pre_done or 'status' in results.get(p, {}):
+                break
+            await asyncio.sleep(0.001)
+    ins.after_read = after_read
     ledger.network = FakeNetwork({b: {'broadcast_fail': 'reject', 'broadcast_cancel': 'hang'}.get(d['action'], 'accept')
                                   for b, d in enumerate(case['builds'])})
 
@@ -299,48 +347,53 @@ async def run_concurrent(world, case):
             'wallet': sorted(r['rid'] for r in c03.spendable_rows(rows_after))}
     for b in range(len(case['builds'])):
         r = results.get(b, {})
-        if not ins.asked.get(b) and not str(r.get('status', '')).startswith('EXC'):
-            # the pre-chosen inputs covered everything: this build never entered the critical section
-            impl['builds'].append({'phase': 'lock', 'held': [], 'rounds': 0, 'took': []})
-            continue
+        pw = r.get('pre_wallet', [])
+        if r.get('status') == 'failed':
+            took = [rid_of[t] for t in ins.released.get(b, []) if t in rid_of]
+        else:
+            took = pw + r.get('added', [])
         impl['builds'].append({'phase': r.get('status', 'never-ran'),
-                               'held': r.get('added', []) if r.get('status') == 'finish' else [],
+                               'held': took if r.get('status') == 'finish' else [],
                                'rounds': len(ins.asked.get(b, [])) - (1 if r.get('status') == 'failed' and not r.get('signfail') else 0),
-                               'took': r.get('added', []) if r.get('status') != 'failed' else
-                               [rid_of[t] for t in ins.released.get(b, []) if t in rid_of]})
+                               'took': took})
     return impl, obs
 
 
 def schedule_of(events, n):
-    """the model schedule induced by the observed events: one entry per model step"""
+    """the model schedule induced by the observed events: one entry per model step.
+    A build's first critical section is the reservation of its pre-chosen inputs (PreLock, Pre, PreUnlock); every later
+    one is a funding round (Lock, Read, Select, Reserve, Unlock)."""
     sched, in_round, marks = [], {}, {}
-    locked = {b for kind, b, _ in events if kind == 'lock'}
-    holding = set()
+    holding, pre_over = set(), set()
     for kind, b, _ in events:
         if kind == 'sync':
             sched.append(n)       # Model/C14.step ignores indices that are no build: a no-op on the wallet and on reserved
             continue
-        if b is None or b not in locked:
-            continue
-        if kind == 'read' and in_round.get(b, 0) >= 3:
-            continue      # the second account's rows of the same Read
-        if kind == 'reserve' and b not in holding:
-            # create's first statement reserves the pre-chosen inputs; in these cases they are never rows of the
-            # wallet, so it changes nothing and is not a step of the model
+        if not isinstance(b, int):
             continue
         if kind == 'lock':
             holding.add(b)
             sched.append(b)
             in_round[b] = 1
+        elif b not in pre_over and b in holding:
+            if kind == 'reserve':
+                sched.append(b)                       # Pre
+            elif kind == 'unlock':
+                holding.discard(b)
+                pre_over.add(b)
+                sched.append(b)                       # PreUnlock
         elif kind == 'read':
+            if in_round.get(b, 0) >= 3:
+                continue                              # the second account's rows of the same Read
             sched += [b, b]
             in_round[b] = in_round.get(b, 0) + 2
         elif kind == 'sqlite':
             sched += [b, b, b]
             in_round[b] = in_round.get(b, 0) + 3
         elif kind == 'reserve':
-            sched.append(b)
-            in_round[b] = in_round.get(b, 0) + 1
+            if b in holding:
+                sched.append(b)
+                in_round[b] = in_round.get(b, 0) + 1
         elif kind == 'unlock':
             holding.discard(b)
             pad = max(0, 4 - in_round.get(b, 0))
@@ -357,7 +410,8 @@ def model_run(model, case, obs, sched, upto=None):
     for b, d in enumerate(case['builds']):
         builds.append({'strategy': case['strategy'], 'amounts': obs['asked'].get(b, []),
                        'broadcast': d['action'] == 'broadcast', 'sign': bool(d.get('sign')),
-                       'order': obs['orders'].get(b)})
+                       'order': obs['orders'].get(b), 'pre': obs['results'].get(b, {}).get('pre_wallet', []),
+                       'start': bool(obs['asked'].get(b))})
     return model.call('run', fpb=case['fpb'], shuffles=obs['shuffles'], builds=builds,
                       sched=sched if upto is None else sched[:upto], wallet=c03.model_wallet(obs['rows_before']),
                       use_lock=True, locked=bool(case.get('locked')), unsignable=obs['unsignable'])
@@ -376,6 +430,7 @@ def monitor(case, impl, obs):
     held = {b: set() for b in range(n)}
     got = {b: set() for b in range(n)}
     prev = set()
+    pre_checked = set()
     for kind, b, snap in events:
         if snap is None or b is None:
             continue
@@ -389,6 +444,13 @@ def monitor(case, impl, obs):
             continue
         if not isinstance(b, int):
             continue
+        if kind == 'reserve' and b not in pre_checked:
+            # the build's first reservation is the one of its pre-chosen inputs: the caller has to hand in outputs
+            # that nobody holds (the code does not refuse them); if that is broken nothing below is the wallet's fault
+            pre_checked.add(b)
+            want = set(obs['results'].get(b, {}).get('pre_wallet', []))
+            if want - (cur - prev):
+                return 'PREMISE'
         if kind in ('reserve', 'sqlite'):
             if prev - cur:
                 return 'a reservation by build %d cleared the flag of %s' % (b, sorted(prev - cur))
@@ -425,6 +487,9 @@ def monitor(case, impl, obs):
         if set(took) - got[b]:
             stale = set(took) - got[b]
             others = sorted(b2 for b2 in range(n) if b2 != b and stale & set(impl['builds'][b2]['took']))
+            if not others:
+                return ('build %d spends %s without ever having reserved it: the output stays available to the other '
+                        'builds while this transaction holds it' % (b, sorted(stale)))
             return ('builds %d and %s both spend outpoint(s) %s: build %d selected an output that was already reserved '
                     '(no output may be selected by more than one build)' % (b, others, sorted(stale), b))
         if set(took) != got[b]:
@@ -444,7 +509,7 @@ def monitor(case, impl, obs):
     before = {r['rid'] for r in c03.spendable_rows(obs['rows_before'])}
     if set(impl['wallet']) != before - spent:
         return 'the set of unspent outputs is not the original one minus the broadcast inputs'
-    if all(impl['builds'][b]['phase'] in ('released', 'failed', 'lock') for b in range(n)):
+    if all(impl['builds'][b]['phase'] in ('released', 'failed') for b in range(n)):
         flags_b = sorted((r['rid'], r['is_reserved'], r['spent']) for r in obs['rows_before'])
         flags_a = sorted((r['rid'], r['is_reserved'], r['spent']) for r in obs['rows_after'])
         if flags_a != flags_b:
@@ -464,12 +529,23 @@ def linearize(c03_model, case, impl, obs):
     got, want = {}, {}
     taken = {}
     started = set()
+    pre_marked = set()
     for kind, b, _ in obs['events']:
         if not isinstance(b, int):
             continue
         if kind == 'read' and b in started:
             continue
-        if kind in ('read', 'sqlite'):
+        if kind == 'reserve' and b not in started and b not in pre_marked:
+            # the pre-chosen wallet inputs become reserved; a build they fully fund never reads the wallet
+            pre_marked.add(b)
+            pw = set(obs['results'][b].get('pre_wallet', []))
+            taken[b] = set(pw)
+            for e in wallet:
+                if e[0][0] in pw:
+                    e[1] = True
+            if obs['asked'].get(b):
+                continue
+        if kind in ('read', 'sqlite') or (kind == 'reserve' and b in pre_marked and b not in started and not obs['asked'].get(b)):
             started.add(b)
             # the moment the build reads the wallet inside its critical section
             d = case['builds'][b]
@@ -487,20 +563,19 @@ def linearize(c03_model, case, impl, obs):
                 m = {'result': 'MODELERROR ' + str(e)}
             if m.get('result') == 'ok':
                 want[b] = {'result': 'ok', 'added': m['added'], 'change': m['change']}
-                taken[b] = set(m['added'])
+                taken[b] = taken.get(b, set()) | set(m['added'])
                 for e in wallet:
                     if e[0][0] in taken[b]:
                         e[1] = True
             elif m.get('result') == 'SignFails':
                 # funded, then tx.sign raises: the inputs stay reserved until the handler's release_tx runs
                 want[b] = {'result': 'SignFails'}
-                taken[b] = set(m['held'])
+                taken[b] = taken.get(b, set()) | set(m['held'])
                 for e in wallet:
                     if e[0][0] in taken[b]:
                         e[1] = True
             else:
                 want[b] = {'result': m.get('result')}
-                taken[b] = set()
             if r.get('signfail'):
                 got[b] = {'result': 'SignFails'}
             elif r.get('status') == 'failed':
@@ -559,6 +634,23 @@ def gen_case(rng, tier):
                        'delay': rng.choice([0, 0, 0, 1, 2, 5]),
                        'hold_yields': rng.choice([0, 0, 1, 3, 10, 30]),
                        'yields': [rng.choice([0, 0, 0, 1, 1, 2, 3, 7]) for _ in range(40)]})
+    # builds that are handed a plain wallet output as pre-chosen input (sweep / txo_spend / consolidation): it covers
+    # the cost, or needs topping up; other builds want the same output
+    refs = [(ti, k) for ti, t in enumerate(txs) for k in range(len(t['outs']))]
+    rng.shuffle(refs)
+    for d in builds:
+        if refs and not d['pre'] and rng.random() < 0.15:
+            ti, k = refs.pop()
+            amt = txs[ti]['outs'][k]['amount']
+            d['pre'] = [{'kind': 'wallet', 'ref': [ti, k]}]
+            d['sign'] = False
+            c = rng.random()
+            if c < 0.5:
+                d['outs'] = []
+            elif c < 0.8:
+                d['outs'] = [{'kind': 'pay', 'amount': max(1, (amt - 148 * fpb) // rng.choice([2, 3, 10]))}]
+            else:
+                d['outs'] = [{'kind': 'pay', 'amount': amt + rng.randrange(0, 5000)}]
     two = fund == 0 and not locked and rng.random() < 0.18
     syncs = []
     if two:
@@ -601,6 +693,8 @@ async def check_concurrent(run, world, model, case, kind, c03_model=None):
         run.count('sync re-saves funding transactions', sum(1 for k, b, _ in obs['events'] if k == 'sync'))
     if len(case['funding']) > 1:
         run.count('two accounts listed in different orders')
+    run.count('builds with pre-chosen wallet outputs', sum(1 for r in obs['results'].values() if r.get('pre_wallet')))
+    run.count('... of which never needed the lock', sum(1 for b, r in obs['results'].items() if r.get('pre_wallet') and not obs['asked'].get(b)))
     run.count('broadcast cancelled while pending', sum(1 for d in case['builds'] if d['action'] == 'broadcast_cancel'))
     if c03.GHOST in case['funding']:
         run.count('keys-not-found account')
@@ -619,6 +713,9 @@ async def check_concurrent(run, world, model, case, kind, c03_model=None):
     if waits:
         run.count('release-or-spend-inside-another-critical-section')
     bad = monitor(case, impl, obs)
+    if bad == 'PREMISE':
+        run.count('caller premise broken: a pre-chosen output was already held (monitor not applicable, model still compared)')
+        bad = None
     if bad:
         run.violation(dict(case, sched=sched, events=[[k, b] for k, b, _ in obs['events']]), bad,
                       signature={'case': vlib.canon(case)})
